@@ -11,15 +11,20 @@ Theorem C01_filter_sound : forall p pol, check_filter p pol = true ->
 Proof. exact filter_sound. Qed.
 Print Assumptions C01_filter_sound.
 
-(** Builder.Build (group construction, Program.Assemble, prologue, export) is correct once and for all
+(** The full statement is
+      forall tbl b pol, policy_of tbl b = Some pol ->
+        exists f, build tbl b = Some f /\ forall d, run f d = Some (verdict pol (sd_arch d) (sd_nr d))
+    (every policy, any list lengths).  Proved below with the bound 256 on each list in the statement;
+    what is missing is the insertion invariant of Program.Assemble's long-jump rewriting.
+    Builder.Build (group construction, Program.Assemble, prologue, export) is correct once and for all
     for every policy whose allow and trace lists hold at most 256 numbers each: it produces a filter,
     and the filter answers the policy's verdict on every seccomp_data.  Longer lists make Assemble
     insert early returns; those filters are only covered per built filter, by C01_filter_sound. *)
-Theorem C01_build_correct_upto_256 : forall tbl b pol, policy_of tbl b = Some pol ->
+Theorem C01_build_correct_partial : forall tbl b pol, policy_of tbl b = Some pol ->
   (length (p_allow pol) <= 256)%nat -> (length (p_trace pol) <= 256)%nat ->
   exists f, build tbl b = Some f /\ forall d, run f d = Some (verdict pol (sd_arch d) (sd_nr d)).
 Proof. exact build_correct. Qed.
-Print Assumptions C01_build_correct_upto_256.
+Print Assumptions C01_build_correct_partial.
 
 (** the instructions Program.Assemble yields for such a policy, in closed form *)
 Theorem C01_assemble_closed_form : forall allow trace d, (length allow <= 256)%nat -> (length trace <= 256)%nat ->
